@@ -121,27 +121,34 @@ func c14BuildRules(t *testing.T) []*c14Rule {
 		// an earlier configuration the same plugin object went through before (rule updates within one agent lifetime):
 		// prevSLO / prevRatio are parsed first ("-" = no earlier event of that kind)
 		prevSLO, prevRatio string
+		// nodeFirst: the node metadata of the final configuration is parsed BEFORE the final NodeSLO (the ratio is set /
+		// changed / removed while an earlier NodeSLO had the CFS quota switched off: seed C14-8)
+		nodeFirst bool
 	}
 	cfgs := []cfg{
-		{"fresh", "", false, "", true, "-", "-"},
-		{"quota-on,ratio-missing", "cpuset", true, "", true, "-", "-"},
-		{"quota-on,ratio-0.50", "cpuset", true, "0.50", true, "-", "-"},
-		{"quota-on,ratio-1.00", "cpuset", true, "1.00", true, "-", "-"},
-		{"quota-on,ratio-1.20", "cpuset", true, "1.20", true, "-", "-"},
-		{"quota-on,ratio-1.50", "cpuset", true, "1.50", true, "-", "-"},
-		{"quota-on,ratio-2.00", "cpuset", true, "2.00", true, "-", "-"},
+		{"fresh", "", false, "", true, "-", "-", false},
+		{"quota-on,ratio-missing", "cpuset", true, "", true, "-", "-", false},
+		{"quota-on,ratio-0.50", "cpuset", true, "0.50", true, "-", "-", false},
+		{"quota-on,ratio-1.00", "cpuset", true, "1.00", true, "-", "-", false},
+		{"quota-on,ratio-1.20", "cpuset", true, "1.20", true, "-", "-", false},
+		{"quota-on,ratio-1.50", "cpuset", true, "1.50", true, "-", "-", false},
+		{"quota-on,ratio-2.00", "cpuset", true, "2.00", true, "-", "-", false},
 		// two-digit ratios whose product by 100 is not an integer in float64 (1.15*100 = 114.99999999999999, 2.30*100 =
 		// 229.99999999999997): a division carried out on truncated integer percents divides by a ratio 0.01 too small (seed C14-7)
-		{"quota-on,ratio-1.15", "cpuset", true, "1.15", true, "-", "-"},
-		{"quota-on,ratio-2.30", "cpuset", true, "2.30", true, "-", "-"},
-		{"quota-off,ratio-missing", "cfsQuota", true, "", false, "-", "-"},
-		{"quota-off,ratio-2.00", "cfsQuota", true, "2.00", false, "-", "-"},
+		{"quota-on,ratio-1.15", "cpuset", true, "1.15", true, "-", "-", false},
+		{"quota-on,ratio-2.30", "cpuset", true, "2.30", true, "-", "-", false},
+		{"quota-off,ratio-missing", "cfsQuota", true, "", false, "-", "-", false},
+		{"quota-off,ratio-2.00", "cfsQuota", true, "2.00", false, "-", "-", false},
 		// the configuration changed while the agent ran: what counts is the configuration now
-		{"quota-on,ratio-missing,was-1.50", "cpuset", true, "", true, "-", "1.50"},
-		{"quota-on,ratio-1.00,was-2.00", "cpuset", true, "1.00", true, "-", "2.00"},
-		{"quota-on,ratio-1.20,was-2.00", "cpuset", true, "1.20", true, "-", "2.00"},
-		{"quota-on,ratio-2.00,was-missing,was-quota-off", "cpuset", true, "2.00", true, "cfsQuota", ""},
-		{"quota-off,ratio-1.50,was-quota-on", "cfsQuota", true, "1.50", false, "cpuset", "-"},
+		{"quota-on,ratio-missing,was-1.50", "cpuset", true, "", true, "-", "1.50", false},
+		{"quota-on,ratio-1.00,was-2.00", "cpuset", true, "1.00", true, "-", "2.00", false},
+		{"quota-on,ratio-1.20,was-2.00", "cpuset", true, "1.20", true, "-", "2.00", false},
+		{"quota-on,ratio-2.00,was-missing,was-quota-off", "cpuset", true, "2.00", true, "cfsQuota", "", false},
+		{"quota-off,ratio-1.50,was-quota-on", "cfsQuota", true, "1.50", false, "cpuset", "-", false},
+		// the two rule sources in the other order
+		{"quota-on,ratio-2.00-set-while-quota-was-off", "cpuset", true, "2.00", true, "cfsQuota", "-", true},
+		{"quota-on,ratio-2.00-changed-from-1.50-while-quota-was-off", "cpuset", true, "2.00", true, "cfsQuota", "1.50", true},
+		{"quota-on,ratio-removed-while-quota-was-off,was-2.00", "cpuset", true, "", true, "cfsQuota", "2.00", true},
 	}
 	parseSLO := func(p *plugin, name, slo string) {
 		pol := slov1alpha1.CPUSetPolicy
@@ -172,16 +179,8 @@ func c14BuildRules(t *testing.T) []*c14Rule {
 		if c.prevRatio != "-" {
 			parseNode(p, c.name, c.prevRatio)
 		}
-		if c.slo != "" {
-			pol := slov1alpha1.CPUSetPolicy
-			if c.slo == "cfsQuota" {
-				pol = slov1alpha1.CPUCfsQuotaPolicy
-			}
-			on := true
-			spec := &slov1alpha1.NodeSLOSpec{ResourceUsedThresholdWithBE: &slov1alpha1.ResourceThresholdStrategy{Enable: &on, CPUSuppressPolicy: pol}}
-			if _, err := p.parseRuleForNodeSLO(spec); err != nil {
-				t.Fatalf("parseRuleForNodeSLO(%s): %v", c.name, err)
-			}
+		if c.slo != "" && !c.nodeFirst {
+			parseSLO(p, c.name, c.slo)
 		}
 		r := &c14Rule{Name: c.name, p: p, QuotaEnabled: c.enable}
 		if c.node {
@@ -197,6 +196,9 @@ func c14BuildRules(t *testing.T) []*c14Rule {
 			if _, err := p.parseRuleForNodeMeta(node); err != nil {
 				t.Fatalf("parseRuleForNodeMeta(%s): %v", c.name, err)
 			}
+		}
+		if c.slo != "" && c.nodeFirst {
+			parseSLO(p, c.name, c.slo)
 		}
 		out = append(out, r)
 	}
